@@ -52,7 +52,7 @@ def make_stream(seed, tier, idx):
 def kinds_for(tier, s):
     k = G.SEG_KINDS[tier]
     if s.cls == "limit":
-        return ("one", "frame", "rand")
+        return ("one", "frame")
     return k
 
 
